@@ -56,6 +56,10 @@ func c12Jobs(o Options) []Job {
 		jobs = append(jobs, Job{Harness: "onnx.H_C12", Case: map[string]interface{}{"dtype": dt, "enc": "raw", "dims": []int{5, 4, 13}, "n": c12Width[dt] * 260}})
 		jobs = append(jobs, Job{Harness: "onnx.H_C12", Case: map[string]interface{}{"dtype": dt, "enc": "raw", "dims": []int{300}, "n": c12Width[dt] * 300}})
 	}
+	// raw payloads that are windows of a larger buffer starting at offsets 1, 2, 3 and 5 (not aligned to the element size)
+	for i, dt := range []string{"FLOAT", "DOUBLE", "INT64", "INT32", "INT16", "UINT16", "FLOAT", "DOUBLE"} {
+		jobs = append(jobs, Job{Harness: "onnx.H_C12", Case: map[string]interface{}{"dtype": dt, "enc": "raw", "dims": []int{3}, "n": c12Width[dt] * 3, "offset": []int{1, 2, 3, 5}[i%4]}})
+	}
 	// the same description loaded twice through NewModel (package gonnx)
 	for _, n := range []int{1, 2} {
 		for _, typed := range []bool{false, true} {
